@@ -5,3 +5,7 @@ pub mod rng;
 pub mod run;
 pub mod mapcodec;
 pub mod mapgen;
+pub mod dummydiffcodec;
+pub mod diffcodec;
+pub mod rawval;
+pub mod rawcodec_gen;
